@@ -18,8 +18,10 @@ Observations (all canonical up to ONE renaming of blank nodes, graph names inclu
   patch pair:    rows of d1.serialize(format="patch", target=d2) and the quads after applying them to a copy of d1
 Oracle (independent of Lean): isoutil.iso(expected quads, parsed quads) with the default graph a constant.
 """
+import hashlib
 import itertools
 import json
+import math
 import re
 import warnings
 import xml.etree.ElementTree as ET
@@ -38,7 +40,8 @@ DRIVER = "drv_c06"
 CASES = {"quick": 2000, "thorough": 40000, "search": 20000}
 RULE = ("random datasets: 0-4 named graphs (IRI and blank-node names, registered-but-empty graphs, empty or "
         "non-empty default graph), triples shared by several graphs, blank nodes shared across graphs and with "
-        "graph names, graph names occurring as subject/object, awkward literals; built through Dataset(), "
+        "graph names, graph names occurring as subject/object, awkward and non-ASCII literals/IRIs, well-formed RDF "
+        "collections inside default / named / two graphs; optional serialize(encoding=) on one format; built through Dataset(), "
         "Dataset(default_union=True) or ConjunctiveGraph() with varying public calls; each serialised in "
         "nquads/trig/trix/hext/json-ld/patch and parsed into an empty Dataset; plus a random edit d2 of the dataset for "
         "the patch clause.  non-trivial = at least two destination graphs carry triples or a blank node is a graph "
@@ -50,9 +53,10 @@ ASSUMPTIONS = ["serialize(encoding=e): the caller either decodes the bytes with 
                "triple-level text (term spelling, literal quoting, prefixes) round-trips (C03/C05); literals typed "
                "xsd:string are identified with plain literals (RDF 1.1) when comparing",
                "blank nodes linked only through blank-node cycles inside one graph are not generated (JSON-LD node "
-               "selection is C03's subject); RDF collections are not generated (list inlining is C03's subject) - the one "
-               "cross-graph effect found by hand, JSON-LD @list cutting a cell shared with another graph, is known finding "
-               "C06-K1 and lies outside the block-level model (blocks are assumed to carry their triples verbatim)",
+               "selection is C03's subject); RDF collections are generated well-formed (lengths 0-3, literal / IRI / blank "
+               "members, nested once, in the default graph, in named graphs, distinct lists in two graphs) with cells that "
+               "are never shared; a cell shared with another graph is known finding C06-K1 (JSON-LD @list cuts it), "
+               "outside the block-level model (blocks are assumed to carry their triples up to a renaming of unshared cells)",
                "fresh BNode() identifiers are distinct from each other and from every label in the document"]
 TRUSTED = ["harness/c06.py generators, the per-format block readers and the canonicaliser (brute-force minimal "
            "relabelling of blank nodes)", "harness/isoutil.py (exact iso decision, cross-validated by C14)",
@@ -62,7 +66,7 @@ E = "http://e/"
 IRIS = {"i1": URIRef(E + "a"), "i2": URIRef(E + "b"), "i3": URIRef(E + "c/d#e"), "i4": URIRef(E + "g1"),
         "i5": URIRef(E + "g2"), "i6": URIRef("urn:g:3"), "i7": URIRef(E + "p"), "i8": URIRef(E + "q"),
         "i9": RDF.type,
-        # used only by hand-written witnesses (the generator builds no RDF collections — C03's subject)
+        # RDF collections (well-formed, cells never shared; K1's witness shares one by hand)
         "i10": RDF.first, "i11": RDF.rest, "i12": RDF.nil,
         # non-ASCII: two look-alike graph names (Greek alpha / Cyrillic a: both become `?` under a lossy codec),
         # one name / node that Latin-1 can represent
@@ -71,7 +75,8 @@ LITS = {"l1": Literal(""), "l2": Literal("x"), "l3": Literal('a"b\\c\'d'), "l4":
         "l5": Literal("é☃\U0001F600"), "l6": Literal("<&> {} # _:z . ; }"), "l7": Literal("x", lang="en"),
         "l8": Literal(0), "l9": Literal(False), "l10": Literal("x", datatype=URIRef(E + "dt")), "l11": Literal("caf\u00e9", lang="fr")}
 BNODES = {"b1": BNode("b1"), "b2": BNode("b2"), "b3": BNode("b3"), "b4": BNode("b4")}
-TERM = {**IRIS, **LITS, **BNODES}
+CELLS = {"b%d" % k: BNode("c%d" % k) for k in range(10, 22)}      # cells of generated RDF collections (never shared)
+TERM = {**IRIS, **LITS, **BNODES, **CELLS}
 GNAMES = ["i4", "i5", "i6", "b1", "b2", "i1"]     # i1 = a name that is mostly used as an ordinary subject
 SUBJ = ["i1", "i2", "i3", "i4", "i5", "b1", "b2", "b3", "b4"]
 OBJ_I = ["i1", "i2", "i3", "i4", "i6"]
@@ -121,19 +126,29 @@ def norm(t):
 # ------------------------------------------------------------------ canonical form up to blank-node renaming
 
 def canon(rows):
+    """minimal relabelling of blank nodes: colour refinement splits them into classes, the remaining ties are
+    broken by brute force (exact as long as the product of the class factorials stays small)"""
     rows = {tuple(r) for r in rows}
     bs = sorted({x for r in rows for x in r if x[:1] == "b"})
     if not bs:
         return sorted(rows)
-    if len(bs) > 7:      # never produced by the generator; lossy but deterministic (the oracle does not depend on it)
-        return sorted({tuple("b?" if x[:1] == "b" else x for x in r) for r in rows}) + [("bnodes", str(len(bs)))]
-    # cheap invariant to cut the permutations: blank nodes are first ordered by a renaming-independent signature
-    def sig(b):
-        return sorted(tuple(("b" if y[:1] == "b" else y) if y != b else "*" for y in r) for r in rows if b in r)
+    col = {b: "" for b in bs}
+    for _ in range(4):
+        new = {}
+        for b in bs:
+            sig = sorted(tuple("*" if y == b else ("b:" + col[y] if y[:1] == "b" else y) for y in r)
+                         for r in rows if b in r)
+            new[b] = hashlib.sha1(repr((col[b], sig)).encode()).hexdigest()[:10]
+        col = new
     groups = {}
     for b in bs:
-        groups.setdefault(json.dumps(sig(b)), []).append(b)
+        groups.setdefault(col[b], []).append(b)
     keys = sorted(groups)
+    n_perm = 1
+    for k in keys:
+        n_perm *= math.factorial(len(groups[k]))
+    if n_perm > 5040:      # never produced by the generator; lossy but deterministic (the oracle does not depend on it)
+        return sorted({tuple("b?" if x[:1] == "b" else x for x in r) for r in rows}) + [("bnodes", str(len(bs)))]
     best = None
     for perms in itertools.product(*[itertools.permutations(groups[k]) for k in keys]):
         order = [b for p in perms for b in p]
@@ -194,7 +209,49 @@ def _gen_ds(rng, nonascii=False):
         q = t + [g]
         if q not in quads:
             quads.append(q)
+    if rng.random() < 0.4:
+        _add_lists(rng, quads, dests)
     return reg, quads
+
+
+def _gen_list(rng, cells, depth=0):
+    """a well-formed collection: returns (head token, triples); `cells` = unused cell labels"""
+    n = rng.choice([0, 1, 1, 2, 2, 3])
+    if n == 0 or len(cells) < n:
+        return "i12", []
+    mine = [cells.pop() for _ in range(n)]
+    triples = []
+    for k, c in enumerate(mine):
+        r = rng.random()
+        if depth == 0 and r < 0.2 and len(cells) >= 1:
+            m, inner = _gen_list(rng, cells, 1)           # nested once
+            triples += inner
+        elif r < 0.6:
+            m = rng.choice(list(LITS))
+        elif r < 0.85:
+            m = rng.choice(OBJ_I)
+        else:
+            m = rng.choice(list(BNODES))
+        triples.append([c, "i10", m])
+        triples.append([c, "i11", mine[k + 1] if k + 1 < n else "i12"])
+    return mine[0], triples
+
+
+def _add_lists(rng, quads, dests):
+    """0-2 collections; a second one goes to ANOTHER graph when there is one (distinct lists, distinct cells)"""
+    cells = list(CELLS)
+    rng.shuffle(cells)
+    cells = cells[:9]
+    used = []
+    for _ in range(rng.choice([0, 0, 1, 1, 2])):
+        pool = [g for g in dests if g not in used] or dests
+        g = rng.choice(pool)
+        used.append(g)
+        head, triples = _gen_list(rng, cells)
+        anchor = [rng.choice(["i1", "i2", "i4", "b1", "b3"]), rng.choice(["i7", "i8"]), head]
+        for t in [anchor] + triples:
+            if t + [g] not in quads:
+                quads.append(t + [g])
 
 
 def _edit(rng, reg, quads):
@@ -428,12 +485,13 @@ def _jl_value(v):
 
 
 def _jl_list(items, spell, st):
-    """@list → rdf:first/rest cells with labels of their own"""
+    """@list → rdf:first/rest cells with labels of their own (a member may itself be a @list)"""
     head = ("i", str(RDF.nil))
     for v in reversed(items):
         _LISTN[0] += 1
         cell = ("b", "jl%d" % _LISTN[0])
-        st.append((spell, cell, ("i", str(RDF.first)), _jl_value(v)))
+        member = _jl_list(v["@list"], spell, st) if isinstance(v, dict) and "@list" in v else _jl_value(v)
+        st.append((spell, cell, ("i", str(RDF.first)), member))
         st.append((spell, cell, ("i", str(RDF.rest)), head))
         head = cell
     return head
@@ -702,7 +760,12 @@ def run_impl(case):
                   "bnode_named": len(bn_names), "bnode_shared_across_graphs": int(bool(shared_b)),
                   "triple_in_several_graphs": int(multi),
                   "name_used_in_triples": int(any(g in q[:3] for q in quads for g in dests if g != "D")),
-                  "empty_registered": int(any(g not in dests for g in reg))})
+                  "empty_registered": int(any(g not in dests for g in reg)),
+                  "list_cells": sum(1 for q in quads if q[1] == "i10"),
+                  "lists_in_named_graph": int(any(q[1] == "i10" and q[3] != "D" for q in quads)),
+                  "lists_in_two_graphs": int(len({q[3] for q in quads if q[1] == "i10"}) > 1),
+                  "nested_list": int(any(q[1] == "i10" and q[2] in CELLS for q in quads)),
+                  "empty_list": int(any(q[2] == "i12" and q[1] != "i11" for q in quads))})
     return {"obs": obs, "viol": viol, "nontrivial": len(dests) >= 2 or bool(bn_names),
             "key": json.dumps([kind, sorted(reg), sorted(quads), case.get("d2"), case.get("enc")], sort_keys=True),
             "stats": stats}
